@@ -540,51 +540,40 @@ class Found(Exception):
         self.detail = detail
 
 
+class SerialStr(str):
+    """A stack entry: behaves as the `str` it is, plus the serial of the push that made it."""
+
+    __slots__ = ("serial",)
+
+
 def make_shadow_classes():
     from pest.stack import Stack  # noqa: PLC0415
     from pest.state import ParserState  # noqa: PLC0415
 
     class ShadowStack(Stack):
-        """The user stack, with a mirror Stack of unique serials driven by the very same
-        operations (so every visible entry is attributable to one push)."""
+        """The user stack whose entries carry a unique serial (a `str` subclass instance
+        per push), so every visible entry is attributable to one push.  Only `push` is
+        overridden and only public iteration is read: the harness must survive any
+        re-implementation of the snapshot encoding (a mirror stack driven through
+        overridden methods would be corrupted by an implementation whose `restore` or
+        `clear` calls its own `push`/`pop`)."""
 
         def __init__(self, sim):
             super().__init__()
-            self.ser = Stack()
             self.sim = sim
 
         def push(self, item):
+            if not isinstance(item, SerialStr):  # an entry put back by the stack itself keeps its serial
+                self.sim.serial += 1
+                item = SerialStr(item)
+                item.serial = self.sim.serial
             super().push(item)
-            self.sim.serial += 1
-            self.ser.push(self.sim.serial)
-
-        def pop(self):
-            item = super().pop()
-            self.ser.pop()
-            return item
-
-        def clear(self):
-            super().clear()
-            self.ser.clear()
-
-        def snapshot(self):
-            super().snapshot()
-            self.ser.snapshot()
-
-        def drop_snapshot(self):
-            super().drop_snapshot()
-            self.ser.drop_snapshot()
-
-        def restore(self):
-            super().restore()
-            self.ser.restore()
 
         def entries(self):
-            items = list(self)  # public iteration only: the harness must survive refactorings
-            ser = list(self.ser)
-            if len(items) != len(ser):
-                return None  # mirror lost (stack mutated behind its methods): abstain
-            return list(zip(ser, items))
+            items = list(self)
+            if any(not isinstance(x, SerialStr) for x in items):
+                return None  # entries copied or pushed behind `push`: abstain
+            return [(x.serial, str(x)) for x in items]
 
     class ShadowState(ParserState):
         """ParserState whose checkpoint() also stores a FULL COPY of the user stack and
@@ -1524,7 +1513,7 @@ class Check:
             "restores_audited_O3": acc.get("restores_seen", 0),
             "effective_restores": acc.get("effective_restores", 0),
             "normal_form_rule_applications_checked_O4": acc.get("structure_checked", 0),
-            "normal_form_rule_applications_skipped": {"count": acc.get("structure_skipped", 0), "why": "observed child calls did not have the operand shape (operand rule inlined by the optimizer, or serial mirror lost)"},
+            "normal_form_rule_applications_skipped": {"count": acc.get("structure_skipped", 0), "why": "observed child calls did not have the operand shape (operand rule inlined by the optimizer, or entry serials lost)"},
             "failed_operand_evaluations_checked": acc.get("failed_operands_checked", 0),
             "executions_abandoned_at_wall_cap": {"count": acc.get("hangs", 0), "samples": acc.get("sample_hangs", [])[:2], "note": "a hang of the code under test is a totality matter (C07), not a C05 verdict"},
             "fault_kinds_fired": {
@@ -1536,5 +1525,5 @@ class Check:
             "probes": {k: acc.get(k, 0) for k in ("probe_all_failed_midway", "probe_op_on_empty_stack", "probe_failed_operand_had_changed_stack")},
             "hypothesis_machines": hyp,
             "schedule_space": "trivial (single thread); the search is over operation histories and injected bracket outcomes",
-            "components": {"real": ["pest front end (scanner, grammar parser)", "optimizer", "interpreter expressions", "code generator + generated modules", "ParserState", "Stack"], "stub": [], "harness_instrumentation": ["atom tap (proxy rule / rebound parse_<atom>)", "ShadowState/ShadowStack subclasses (full-copy bracket shadow, serial mirror)"], "model": "spec_apply (exact transition of the seven operations) + structural clause check_structure_O4 in vpest/c05.py"},
+            "components": {"real": ["pest front end (scanner, grammar parser)", "optimizer", "interpreter expressions", "code generator + generated modules", "ParserState", "Stack"], "stub": [], "harness_instrumentation": ["atom tap (proxy rule / rebound parse_<atom>)", "ShadowState/ShadowStack subclasses (full-copy bracket shadow, entries carrying push serials)"], "model": "spec_apply (exact transition of the seven operations) + structural clause check_structure_O4 in vpest/c05.py"},
         }
